@@ -289,6 +289,45 @@ theorem newRound_clears_round_state :
     "b.NewRound(true)" ∈ src_NewHeight_stmts := by
   decide
 
+/-- **The lock a correct replica reports is accepted.** `CheckHighQC` passes every full PROPOSE_VOTE certificate of the
+    current height whose root height is not below the committee's last update — in particular one from exactly that
+    root height (a nested chain whose root chain has not advanced since its last commit). `good_leader_commits` needs
+    the leader to hear the locks of the correct replicas: this is what lets their ELECTION_VOTEs (and the re-proposal
+    that carries the lock as `HighQc`) through. -/
+theorem checkHighQCPost_complete (x view : Gen.Bft.View) (l : Nat)
+    (hl : l ≤ x.RootHeight) (hh : x.Height = view.Height) (hp : x.Phase = phase_PROPOSE_VOTE) :
+    checkHighQCPost false x view l = none := by
+  unfold checkHighQCPost
+  have h1 : ¬ (l > x.RootHeight) := by omega
+  simp [h1, hh, hp]
+
+/-- the boundary is legal and the only rejected root heights are the stale ones -/
+theorem checkHighQCPost_root_boundary (x view : Gen.Bft.View) (hh : x.Height = view.Height) (hp : x.Phase = phase_PROPOSE_VOTE) :
+    checkHighQCPost false x view x.RootHeight = none ∧
+    checkHighQCPost false x view (x.RootHeight + 1) = some "ErrWrongHighQCRootHeight" := by
+  refine ⟨checkHighQCPost_complete x view _ (Nat.le_refl _) hh hp, ?_⟩
+  unfold checkHighQCPost
+  simp
+
+/-- in the per-replica model: the candidate named by an ELECTION_VOTE of its round, up to its PROPOSE phase, processes a
+    real, full, current lock certificate that carries its proposal — it adopts or keeps, it never rejects the vote -/
+theorem exec_leader_hears_lock (w : World) (r : Nat) (s : Rep) (v : Bft.View) (hq : CertD)
+    (hroot : v.root = s.root) (hround : v.round = s.round)
+    (hphase : s.phase = phase_ELECTION ∨ s.phase = phase_ELECTION_VOTE ∨ s.phase = phase_PROPOSE)
+    (hsig : w.sigValid hq = true) (hfull : w.isPartial hq.signers = false)
+    (hph : hq.phase = phase_PROPOSE_VOTE) (hl : w.lrhu ≤ hq.view.root) :
+    (w.electionVote r s v (some r) hq true true).2 = "adopt" ∨ (w.electionVote r s v (some r) hq true true).2 = "keep" := by
+  have hgate : electionVoteIgnored (some r == some r) v.round s.round s.phase = false := by
+    rw [(electionVote_gate _ _ _ _).1]
+    exact ⟨by simp, hround, hphase⟩
+  have hpost : checkHighQCPost (w.isPartial hq.signers) (certHdr hq) (hdrOf ⟨s.root, s.round⟩ s.phase) w.lrhu = none := by
+    rw [hfull]
+    exact checkHighQCPost_complete _ _ _ (by simpa [certHdr, hdrOf] using hl) rfl (by simp [certHdr, hdrOf, hph])
+  unfold World.electionVote
+  simp only [hroot, bne_self_eq_false, Bool.false_eq_true, if_false, hgate, highQcMissingProposal, Bool.not_true,
+    Bool.or_self, hsig, hpost]
+  split <;> (split <;> simp)
+
 /-! ## the per-replica handlers accept what a correct leader sends (duals of C01's `exec_*` theorems) -/
 
 /-- `StartProposeVotePhase` lets a replica vote when the justification dominates its lock or certifies the locked block -/
